@@ -117,13 +117,13 @@ func genC14(seed uint64, tier string) *Plan {
 
 type c14state struct {
 	fillStart map[string]int64 // per table: the "expired" threshold when the fill phase began
-	e     *Env
-	p     *Plan
-	n     *Node
-	m     *Model
-	vclk  int64 // model of the virtual clock (absolute nanos; MinInt64 = zero time)
-	id    int
-	nontr bool
+	e         *Env
+	p         *Plan
+	n         *Node
+	m         *Model
+	vclk      int64 // model of the virtual clock (absolute nanos; MinInt64 = zero time)
+	id        int
+	nontr     bool
 }
 
 // offer applies the property's acceptance rule: a point older than the
